@@ -155,6 +155,8 @@ def run_property(pid, tier='quick', seed=0, repo=None, write=True, quiet=False,
     mod = importlib.import_module('ginsa.rules.' + pid.lower())
     try:
       mod.run(ctx)
+      from .rules.lints import run_lints
+      ctx.section(run_lints, ctx, pid)
     except AnalysisError as e:
       # A rule could not interpret the tree.  Violations already established by
       # earlier rules stand (exit 1); otherwise the run is an ANALYSIS-ERROR.
